@@ -11,7 +11,7 @@
 EXTENDS TlvTag, Json, IOUtils, TLCExt
 
 VARIABLES tid, l
-tvars == <<lay, mem, plans, k, pc, op, msg, last, tid, l>>
+tvars == <<lay, mem, plans, k, pc, op, msg, last, rd, tid, l>>
 
 Traces == ndJsonDeserialize(IOEnv.TRACE_FILE)
 T == Traces[tid].ev
@@ -32,6 +32,7 @@ TInit ==
     /\ op = "none"
     /\ msg = <<>>
     /\ last = [u |-> 0, ph |-> 0, any |-> FALSE]
+    /\ rd = [cache |-> <<>>, shadow |-> <<>>, ext |-> 0, rsec |-> 0, tsec |-> 0, nf |-> 0, tries |-> 0]
 
 Ev == T[l]
 IsEv(a) == l <= Len(T) /\ Ev.a = a /\ l' = l + 1 /\ UNCHANGED <<tid, lay>>
@@ -42,53 +43,86 @@ BothVariants == {"asis", "fixed"}
 Free == Relaxed("Plan")
 
 \* ---- guarded spec actions ----------------------------------------------------------------
+\* the reader-writer state nfcpy holds when the call starts.  First call on a fresh tag object: everything it holds
+\* was read from the tag (cache = shadow = memory), Ev.ext = how far it has read, Ev.rsec = the sector it believes the
+\* tag is in, Ev.tsec = the sector the simulated tag IS in.  Repeated call on the SAME object after a failed one
+\* (Ev.retry): its _data_in_cache / _data_from_tag are logged (the part it has read; the rest is the tag memory).
+Pad(c) == IF Len(c) >= Len(mem) THEN SubSeq(c, 1, Len(mem)) ELSE c \o SubSeq(mem, Len(c) + 1, Len(mem))
+RdAt == [cache |-> IF Ev.retry THEN Pad(Ev.cache) ELSE mem, shadow |-> IF Ev.retry THEN Pad(Ev.shadow) ELSE mem,
+         ext |-> IF IsT2(lay) THEN Ev.ext ELSE Size(mem), rsec |-> Ev.rsec, tsec |-> Ev.tsec, nf |-> rd.nf,
+         tries |-> IF Ev.retry THEN rd.tries + 1 ELSE 0]
+BeginOk == IF Ev.retry THEN pc = "failed" /\ Ev.op = op /\ (op = "write" => Ev.msg = msg) ELSE pc = "idle"
+
 GBeginW ==
-    /\ IsEv("Begin") /\ Ev.op = "write" /\ pc = "idle"
+    /\ IsEv("Begin") /\ Ev.op = "write" /\ BeginOk
     /\ WellFormed(lay) /\ InScope(lay, Len(Ev.msg)) /\ lay.old = Ndef(C.old)
-    /\ op' = "write" /\ msg' = Ev.msg
+    /\ op' = "write" /\ msg' = Ev.msg /\ rd' = RdAt /\ k' = 0
     /\ IF (IF Free THEN T[l + 1].a = "Ret" /\ T[l + 1].res = "reject"      \* free mode: as the code decided
                    ELSE Len(Ev.msg) > CodeCap(lay))
        THEN pc' = "rejected" /\ plans' = {}
-       ELSE pc' = "run" /\ plans' = {Tagged(WritePlan(lay, mem, Ev.msg, v), v) : v \in BothVariants}
-    /\ UNCHANGED <<mem, k, last>>
+       ELSE pc' = "run" /\ plans' = {Tagged(WritePlanX(lay, RdAt.cache, RdAt.shadow, RdAt.ext, RdAt.rsec, Ev.msg, v), v) :
+                                          v \in BothVariants}
+    /\ UNCHANGED <<mem, last>>
 
 GBeginF ==
-    /\ IsEv("Begin") /\ Ev.op = "format" /\ pc = "idle"
+    /\ IsEv("Begin") /\ Ev.op = "format" /\ BeginOk
     /\ WellFormed(lay) /\ lay.fmt # "none" /\ lay.old = Ndef(C.old)
-    /\ op' = "format" /\ msg' = <<Ev.wipe>>
-    /\ pc' = "run" /\ plans' = {Tagged(FormatPlan(lay, mem, Ev.wipe, v), v) : v \in BothVariants}
-    /\ UNCHANGED <<mem, k, last>>
+    /\ op' = "format" /\ msg' = <<Ev.wipe>> /\ rd' = RdAt /\ k' = 0
+    /\ pc' = "run"
+    /\ plans' = {Tagged(IF lay.fmt = "T2" THEN FormatPlanX(lay, RdAt.cache, RdAt.shadow, RdAt.ext, RdAt.rsec, Ev.wipe, v)
+                        ELSE FormatPlanX(lay, mem, mem, Size(mem), 0, Ev.wipe, v), v) : v \in BothVariants}
+    /\ UNCHANGED <<mem, last>>
 
-Matching == {p \in plans : k < Len(p.cmds) /\ p.cmds[k + 1].u = Ev.u /\ p.cmds[k + 1].d = Ev.d}
+\* Ev.u of a WRITE is the unit the simulated tag really wrote (it knows its sector); of a sector select, the sector
+Matching == {p \in plans : /\ k < Len(p.cmds) /\ p.cmds[k + 1].s = Ev.s
+                           /\ IF Ev.s = 1 THEN p.cmds[k + 1].u = Ev.u
+                              ELSE Landed(lay, p.cmds[k + 1].u, rd.tsec) = Ev.u /\ p.cmds[k + 1].d = Ev.d}
+Running == pc = "run" \/ (Free /\ pc = "faulted")
 GCmd ==
-    /\ IsEv("Cmd") /\ pc = "run"
+    /\ IsEv("Cmd") /\ Running
     /\ Free \/ Matching # {}
     /\ plans' = IF Matching # {} THEN Matching ELSE plans
-    /\ mem' = Store(lay, mem, Ev.u, Ev.d)
-    /\ last' = [u |-> Ev.u, ph |-> IF Matching # {} THEN (CHOOSE p \in Matching : TRUE).cmds[k + 1].ph ELSE 0,
-                any |-> TRUE]
+    /\ IF Ev.s = 1
+       THEN mem' = mem /\ last' = last /\ rd' = [rd EXCEPT !.tsec = Ev.u, !.rsec = Ev.u]
+       ELSE /\ mem' = Store(lay, mem, Ev.u, Ev.d)
+            /\ last' = [u |-> Ev.u, ph |-> IF Matching # {} THEN (CHOOSE p \in Matching : TRUE).cmds[k + 1].ph ELSE 0,
+                        any |-> TRUE]
+            /\ rd' = rd
     /\ k' = k + 1
     /\ UNCHANGED <<pc, op, msg>>
 
-GRet ==
-    /\ IsEv("Ret")
-    /\ CASE Ev.res = "ok"     -> pc = "run" /\ (Free \/ \E p \in plans : Len(p.cmds) = k /\ p.res = "ok") /\ pc' = "done"
-         [] Ev.res = "crash"  -> pc = "run" /\ (Free \/ \E p \in plans : Len(p.cmds) = k /\ p.res = "crash") /\ pc' = "crashed"
-         [] Ev.res = "reject" -> (pc = "rejected" \/ (Free /\ pc = "run")) /\ pc' = "rejected"
-         [] Ev.res = "cut"    -> pc = "run" /\ (Free \/ \E p \in plans : k < Len(p.cmds)) /\ pc' = "cut"
-         [] OTHER -> FALSE
+\* a transient RF fault injected by the simulator: the frame is not executed by the tag.  A burst (the command and
+\* its retransmissions are lost) or a NAK ends the call with a tag command error; one garbled frame is repeated by
+\* transceive() - except SECTOR SELECT packet 2, which is sent once: there silence means "switched", anything else
+\* must end the call (the tag did not switch).
+Fatal == Ev.kind \in {"burst", "nak"} \/ (Ev.kind = "xerr" /\ Ev.at = "ss2")
+GFault ==
+    /\ IsEv("Fault") /\ pc = "run"
+    /\ pc' = IF Fatal THEN "faulted" ELSE pc
+    /\ rd' = [rd EXCEPT !.nf = rd.nf + 1]
     /\ UNCHANGED <<mem, plans, k, op, msg, last>>
 
-GView ==
-    /\ IsEv("View") /\ pc \in {"done", "crashed", "rejected", "cut"}
-    /\ UNCHANGED <<mem, plans, k, pc, op, msg, last>>
+GRet ==
+    /\ IsEv("Ret")
+    /\ CASE Ev.res = "ok"     -> Running /\ (Free \/ \E p \in plans : Len(p.cmds) = k /\ p.res = "ok") /\ pc' = "done"
+         [] Ev.res = "crash"  -> pc = "run" /\ (Free \/ \E p \in plans : Len(p.cmds) = k /\ p.res = "crash") /\ pc' = "crashed"
+         [] Ev.res = "reject" -> (pc = "rejected" \/ (Free /\ pc = "run")) /\ pc' = "rejected"
+         [] Ev.res = "cut"    -> Running /\ (Free \/ \E p \in plans : k < Len(p.cmds)) /\ pc' = "cut"
+         [] Ev.res = "fail"   -> pc = "faulted" /\ pc' = "failed"
+         [] OTHER -> FALSE
+    /\ UNCHANGED <<mem, plans, k, op, msg, last, rd>>
 
-Guarded == GBeginW \/ GBeginF \/ GCmd \/ GRet \/ GView
+GView ==
+    /\ IsEv("View") /\ pc \in {"done", "crashed", "rejected", "cut", "failed"}
+    /\ UNCHANGED <<mem, plans, k, pc, op, msg, last, rd>>
+
+Guarded == GBeginW \/ GBeginF \/ GCmd \/ GFault \/ GRet \/ GView
 
 \* ---- logged results ------------------------------------------------------------------------
 NSkip == Cardinality({a \in lay.skip : a < Size(lay.mem0)})
 ResOk ==
-    CASE Ev.a = "Begin" -> Free \/ (Ev.off = lay.off /\ Ev.cap = CodeCap(lay) /\ Ev.nskip = NSkip)
+    CASE Ev.a = "Begin" -> Free \/ (/\ Ev.off = lay.off /\ Ev.cap = CodeCap(lay) /\ Ev.nskip = NSkip
+                                    /\ (IsT2(lay) /\ ~Ev.retry) => Ev.ext = ExtAfterRead(lay))
       [] Ev.a = "Ret"   -> Ev.n = k /\ Ev.mem = mem
       [] Ev.a = "View"  -> LET r == RefRead(lay, mem) IN
                            CASE r.k = "ndef" -> Ev.k = "ndef" /\ Ev.v = r.v
@@ -97,18 +131,25 @@ ResOk ==
       [] OTHER -> TRUE
 
 \* ---- invariants as step post-conditions ------------------------------------------------------
-InvNames == <<"CapSound", "RejectEarly", "NoCrash", "RoundTrip", "Atomic", "Confined", "UnitsInArea", "LockOneWay">>
+InvNames == <<"CapSound", "RejectEarly", "NoCrash", "RoundTrip", "Atomic", "Confined", "UnitsInArea", "LockOneWay",
+              "Coherent", "SectorSync">>
+IsWrite == Ev.a = "Cmd" /\ Ev.s = 0
 InvP(n) ==
     \/ Relaxed(n)
     \/ CASE n = "CapSound"    -> Ev.a = "Begin" => CapSoundP(lay) /\ Ev.cap <= RefCapacity(lay)
          [] n = "RejectEarly" -> pc' = "rejected" => k' = 0 /\ mem' = lay.mem0
          [] n = "NoCrash"     -> pc' # "crashed"
          [] n = "RoundTrip"   -> (Ev.a = "Ret" /\ pc' = "done") => RoundTripP(lay, mem', op', msg')
-         [] n = "Atomic"      -> Ev.a = "Cmd" => AtomicP(lay, mem', op', msg')
-         [] n = "Confined"    -> /\ Ev.a = "Cmd" => ConfinedP(lay, mem', UnitAddrs(lay, Ev.u))
+         [] n = "Atomic"      -> IsWrite => AtomicP(lay, mem', op', msg')
+         [] n = "Confined"    -> /\ IsWrite => ConfinedP(lay, mem', UnitAddrs(lay, Ev.u))
                                  /\ Ev.a = "Ret" => ConfinedP(lay, mem', All(lay))
-         [] n = "UnitsInArea" -> Ev.a = "Cmd" => UnitInAreaP(lay, Ev.u)
-         [] n = "LockOneWay"  -> Ev.a = "Cmd" => OneWayP(lay, mem', UnitAddrs(lay, Ev.u))
+         [] n = "UnitsInArea" -> IsWrite => UnitInAreaP(lay, Ev.u)
+         [] n = "LockOneWay"  -> IsWrite => OneWayP(lay, mem', UnitAddrs(lay, Ev.u))
+         \* what the reader believes is on the tag is on the tag: after a failed call, and when the call is repeated
+         [] n = "Coherent"    -> /\ (Ev.a = "Ret" /\ Ev.res = "fail") => CoherentP(lay, mem', Ev.shadow)
+                                 /\ (Ev.a = "Begin" /\ Ev.retry) => CoherentP(lay, mem', Ev.shadow)
+         \* the sector the reader believes the tag is in is the sector the tag is in, whenever a call starts or ends
+         [] n = "SectorSync"  -> (Ev.a \in {"Begin", "Ret"}) => Ev.rsec = Ev.tsec
 AllInv == \A i \in DOMAIN InvNames : InvP(InvNames[i])
 
 Real == Guarded /\ ResOk /\ AllInv
@@ -121,7 +162,7 @@ Diag == [kind |-> lay.kind, fmt |-> lay.fmt, op |-> op, n |-> Len(msg), off |-> 
          wf |-> WellFormed(lay) /\ lay.old = Ndef(C.old)]
 Expected ==
     CASE Ev.a = "Begin" -> <<lay.off, CodeCap(lay), NSkip>>
-      [] Ev.a = "Cmd" -> {IF k < Len(p.cmds) THEN <<p.v, p.cmds[k + 1].u, p.cmds[k + 1].d>> ELSE <<p.v, 99999, <<>> >> : p \in plans}
+      [] Ev.a = "Cmd" -> {IF k < Len(p.cmds) THEN <<p.v, p.cmds[k + 1].s, p.cmds[k + 1].u, p.cmds[k + 1].d>> ELSE <<p.v, 9, 99999, <<>> >> : p \in plans}
       [] Ev.a = "Ret" -> <<k, {<<p.v, Len(p.cmds), p.res>> : p \in plans}>>
       [] Ev.a = "View" -> LET r == RefRead(lay, mem) IN <<r.k, Len(r.v)>>
       [] OTHER -> <<>>
@@ -134,7 +175,7 @@ Stuck ==
     /\ ~ENABLED Real
     /\ PrintT(<<"STUCK", Traces[tid].id, l, Ev.a, Why>>)
     /\ l' = Len(T) + 2
-    /\ UNCHANGED <<lay, mem, plans, k, pc, op, msg, last, tid>>
+    /\ UNCHANGED <<lay, mem, plans, k, pc, op, msg, last, rd, tid>>
 
 TNext == Real \/ Stuck
 TSpec == TInit /\ [][TNext]_tvars
